@@ -190,3 +190,97 @@ Proof. intros L res. split.
   - intros H1 Hs u Hu. exact (split_result_unit L res u H1 Hs Hu).
   - exact (split_result_off L res). Qed.
 Print Assumptions C05_split_outputs.
+
+(* ================= "hence monotone / bounded at every input" for the LAYER call forms and for
+   CategoricalCalibration; categorical output structure (Proofs/PWLLayer.v) =================
+   Vocabulary: [row_ok L row]: the row has one column or one per unit; [unit_outs L u]: the keypoint outputs of
+   unit u (cumulative sums of its column of bias_and_heights, i.e. with the closing height of a cyclic layer; for
+   non-cyclic layers exactly keypoints_outputs(), C05_unit_outs_reported); [not_missing L row given u]: call_row
+   does not impute unit u's entry (imputation off, flag == 0, or entry <> missing_input_value);
+   [cat_index L row u]: the default-replaced integer index unit u looks up. *)
+From TFL Require Import Proofs.PWLLayer.
+
+Theorem C05_unit_outs_reported : forall L u, p_cyclic L = false -> unit_outs L u = keypoints_outputs_col L u.
+Proof. exact unit_outs_reported. Qed.
+Print Assumptions C05_unit_outs_reported.
+
+(* Monotone keypoint outputs => the layer output of unit u (call_row: one input column broadcast to the units
+   or one per unit, matmul or expand path, fixed or learned keypoints, cyclic closing, imputation on or off)
+   is monotone over EVERY pair of non-missing inputs; same for non-increasing outputs. *)
+Theorem C05_layer_monotone : forall L u row row' given given',
+  (u < p_units L)%nat -> row_ok L row -> length row' = length row ->
+  Forall (fun l => 0 < l) (unit_lens L u) ->
+  not_missing L row given u -> not_missing L row' given' u ->
+  nth (col_of (length row) u) row 0 <= nth (col_of (length row) u) row' 0 ->
+  (nondecr (unit_outs L u) -> nth u (call_row L row given) 0 <= nth u (call_row L row' given') 0) /\
+  (nonincr (unit_outs L u) -> nth u (call_row L row' given') 0 <= nth u (call_row L row given) 0).
+Proof. exact layer_call_monotone. Qed.
+Print Assumptions C05_layer_monotone.
+
+(* Keypoint outputs and the unit's missing output in [lo, hi] => the layer output is in [lo, hi] at EVERY
+   input of an accepted form: missing or not, flags given (anywhere in [0, 1]; the code mixes linearly) or
+   derived from missing_input_value.  Without imputation only the keypoint outputs matter. *)
+Theorem C05_layer_bounded : forall L u row given e lo hi, (u < p_units L)%nat -> row_ok L row ->
+  segments (unit_lefts L u) (unit_lens L u) e ->
+  length (column u (bias_and_heights L)) = S (length (unit_lefts L u)) ->
+  (forall y, In y (unit_outs L u) -> lo <= y <= hi) ->
+  (p_impute L = true -> lo <= nth u (p_missing_output L) 0 <= hi) ->
+  (forall m, given = Some m -> 0 <= nth (col_of (length m) u) m 0 <= 1) ->
+  lo <= nth u (call_row L row given) 0 <= hi.
+Proof. exact layer_call_bounded. Qed.
+Print Assumptions C05_layer_bounded.
+
+(* Categorical: bucket values ordered along a pair (a, b) => outputs ordered for every pair of inputs that
+   select a and b (through the category itself or through default_input_value -> last bucket). *)
+Theorem C05_categorical_monotone : forall L u row row' a b,
+  (u < c_units L)%nat -> cat_row_ok L row -> cat_row_ok L row' ->
+  (a < c_buckets L)%nat -> (b < c_buckets L)%nat ->
+  cat_index L row u = Z.of_nat a -> cat_index L row' u = Z.of_nat b ->
+  nth u (nth a (c_kernel L) []) 0 <= nth u (nth b (c_kernel L) []) 0 ->
+  nth u (cat_row L row) 0 <= nth u (cat_row L row') 0.
+Proof. exact categorical_monotone. Qed.
+Print Assumptions C05_categorical_monotone.
+
+(* Categorical: bucket values of unit u in [lo, hi] => output in [lo, hi] for every category in range and for
+   default_input_value. *)
+Theorem C05_categorical_bounded : forall L u row lo hi,
+  (u < c_units L)%nat -> cat_row_ok L row -> (0 < c_buckets L)%nat ->
+  (forall k, (k < c_buckets L)%nat -> lo <= nth u (nth k (c_kernel L) []) 0 <= hi) ->
+  (0 <= cast_int (nth (col_of (length row) u) row 0%Q) < Z.of_nat (c_buckets L))%Z \/
+  c_default L = Some (cast_int (nth (col_of (length row) u) row 0%Q)) ->
+  lo <= nth u (cat_row L row) 0 <= hi.
+Proof. exact categorical_bounded. Qed.
+Print Assumptions C05_categorical_bounded.
+
+(* Categorical split_outputs: units == 1 or split_outputs off: the single [batch, units] matrix; units > 1 and
+   split_outputs: [units] matrices [batch, 1], entry p of matrix u is unit u's output on input row p. *)
+Theorem C05_categorical_split_outputs : forall L inputs,
+  let res := map (cat_row L) inputs in
+  (c_units L = 1%nat -> cat_call L inputs = [res]) /\
+  (c_units L <> 1%nat -> c_split L = false -> cat_call L inputs = [res]) /\
+  (c_units L <> 1%nat -> c_split L = true ->
+     length (cat_call L inputs) = c_units L /\
+     forall u, (u < c_units L)%nat ->
+       nth u (cat_call L inputs) [] = map (fun r => [nth u r 0]) res /\
+       forall p, (p < length inputs)%nat ->
+         nth p (nth u (cat_call L inputs) []) [] = [nth u (cat_row L (nth p inputs [])) 0]).
+Proof. exact cat_call_structure. Qed.
+Print Assumptions C05_categorical_split_outputs.
+
+(* hypotheses are satisfiable: a two-unit imputing layer whose unit 1 has non-decreasing keypoint outputs in
+   [0, 6] and missing output 6; a categorical layer with ordered, bounded bucket values and a default *)
+Example C05_ex_layer_hyps :
+  row_ok mono_layer [1#2] /\ row_ok mono_layer [1#2; 2] /\
+  Forall (fun l => 0 < l) (unit_lens mono_layer 1) /\ nondecr (unit_outs mono_layer 1) /\
+  segments (unit_lefts mono_layer 1) (unit_lens mono_layer 1) 3 /\
+  length (column 1 (bias_and_heights mono_layer)) = S (length (unit_lefts mono_layer 1)) /\
+  (forall y, In y (unit_outs mono_layer 1) -> 0 <= y <= 6) /\
+  0 <= nth 1 (p_missing_output mono_layer) 0 <= 6 /\
+  not_missing mono_layer [1#2] None 1 /\ not_missing mono_layer [5; 1#2] (Some [1; 0]) 1.
+Proof. exact mono_layer_hyps. Qed.
+Example C05_ex_cat_hyps :
+  cat_row_ok example_cat [1] /\ cat_row_ok example_cat [0; -(1)] /\
+  cat_index example_cat [1] 1 = Z.of_nat 1 /\ cat_index example_cat [0; -(1)] 1 = Z.of_nat 2 /\
+  nth 1 (nth 1 (c_kernel example_cat) []) 0 <= nth 1 (nth 2 (c_kernel example_cat) []) 0 /\
+  (forall k, (k < c_buckets example_cat)%nat -> 1 <= nth 1 (nth k (c_kernel example_cat) []) 0 <= 6).
+Proof. exact cat_mono_hyps. Qed.
